@@ -149,3 +149,130 @@ PLANS["C09"] = {
                  R("codec-stream", "rel", shards=16, streams=192, mib=64, big_mib=512),
                  R("codec-stream", "dbg", shards=16, streams=64, mib=16, big_mib=64)],
 }
+
+IOVEC_RULE = (
+    "cases = seeded random histories of 1..400 operations over up to six live OwningIovecs (created by new / new_from_slices / collect / "
+    "new_from_arena): push, push_borrowed, push_copy (lengths around 64 / 256 / arena chunk sizes), extend (with empty slices), anchored pushes "
+    "(arena().read_n behind a short-read reader, skip_prefix / drop_suffix / split_at, components, push_borrowed, push_anchor; halves held back and "
+    "pushed later, possibly into another iovec), push_anchor(default), register_patch(0..4 bytes), backfill_or_panic in any order, clear, take, "
+    "clone (only with nothing pending), drop of an iovec mid-history, arena flush / ensure_capacity / take_arena / swap_arena between iovecs and "
+    "held arenas; consumer side consume(k), advance_slices(n), pop_front, Read::read, read_to_end. After EVERY operation EVERY live iovec is compared "
+    "with its own shadow pipe: total_size, len/is_empty, has_pending_backrefs, stable_prefix bytes (byte-for-byte, never beyond the earliest pending "
+    "placeholder, everything when none is pending), front, iovs, flatten, flatten_into, iteration, stable_consumer status; every exposed slice is "
+    "located in the H1 live-chunk registry or the harness's own pool and arena-resident slices must be disjoint; held AnchoredSlices must keep "
+    "their bytes. Histories end by dropping all objects in a seeded random order (survivors re-observed after each drop), then the process-wide "
+    "arena counters must be back at their starting values. non-trivial = every history (each performs at least one monitored operation); distinct "
+    "= distinct hash of the log2-bucketed feature vector (merges, partial consumptions, arena growth, out-of-order backfills, placeholders "
+    "registered into merged slices, consumption while pending, clones, takes, arena swaps, held slices pushed later, max pending, length class).")
+
+IOVEC_ASSUME = [
+    "hook H1 reports exactly the live arena chunks (address ranges only)",
+    "every appended region is a distinct window of a position-dependent pattern, so stale/aliased reads differ in content",
+    "slice counts and merge decisions are never predicted (implementation freedom); only bytes and each call's own report are",
+]
+
+IOVEC_REQ = [
+    "iovec.merge_happened", "iovec.merge_refused", "iovec.partial_consumption_of_a_slice", "iovec.arena_chunk_allocated",
+    "iovec.anchored_pushes", "iovec.clear_with_outstanding_data", "iovec.backfill_out_of_order",
+    "iovec.placeholder_registered_into_merged_slice", "iovec.consumption_while_placeholder_pending",
+    "iovec.observations_with_bytes_blocked_behind_placeholder", "iovec.all_placeholders_filled_events",
+    "iovec.clones", "iovec.takes", "iovec.arena_swaps", "iovec.held_anchored_slice_pushed_later",
+    "iovec.iovec_dropped_mid_history", "iovec.drop_accounting_checked",
+]
+
+PLANS["C03"] = {
+    "level": "exploration",
+    "technique": "shadow-pipe reference monitor evaluated on every live iovec after every operation of random multi-iovec histories (dbg incl. crate rep-checks; rel volume, ASan and Miri in the thorough tier)",
+    "rule": IOVEC_RULE, "assumptions": IOVEC_ASSUME, "required_features": IOVEC_REQ,
+    "quick": [R("iovec", "dbg", cases=300000, focus="C03")],
+    "thorough": [R("iovec", "dbg", cases=3000000, focus="C03"),
+                 R("iovec", "rel", cases=8000000, focus="C03"),
+                 R("iovec", "asan", cases=200000, focus="C03"),
+                 R("iovec", "miri", cases=96, focus="C03", timeout=3000, miriflags="-Zmiri-disable-isolation -Zmiri-disable-stacked-borrows")],
+}
+PLANS["C04"] = {
+    "level": "exploration",
+    "technique": "shadow-pipe monitor with placeholder marks: observed bytes never reach the earliest pending placeholder, accessor Ok/Err status == (no placeholder pending), placeholder-heavy random histories with out-of-order fills",
+    "rule": IOVEC_RULE, "assumptions": IOVEC_ASSUME, "required_features": IOVEC_REQ,
+    "quick": [R("iovec", "dbg", cases=300000, focus="C04")],
+    "thorough": [R("iovec", "dbg", cases=3000000, focus="C04"),
+                 R("iovec", "rel", cases=8000000, focus="C04"),
+                 R("iovec", "miri", cases=96, focus="C04", timeout=3000, miriflags="-Zmiri-disable-isolation -Zmiri-disable-stacked-borrows")],
+}
+PLANS["C20"] = {
+    "level": "exploration",
+    "technique": "one shadow per live iovec, all compared after every operation on any of them (interference shows on the untouched side); clone/take-heavy histories with arena swaps and either side dropped first",
+    "rule": IOVEC_RULE, "assumptions": IOVEC_ASSUME, "required_features": IOVEC_REQ,
+    "quick": [R("iovec", "dbg", cases=300000, focus="C20")],
+    "thorough": [R("iovec", "dbg", cases=3000000, focus="C20"),
+                 R("iovec", "rel", cases=8000000, focus="C20"),
+                 R("iovec", "asan", cases=200000, focus="C20"),
+                 R("iovec", "miri", cases=96, focus="C20", timeout=3000, miriflags="-Zmiri-disable-isolation -Zmiri-disable-stacked-borrows")],
+}
+
+STREAM_RULE = (
+    "cases = generated byte streams (valid records = reference encodings of empty / FE FD-containing / ~64 KiB / random payloads, 1-3 delimiters, "
+    "delimiter-free garbage, torn prefixes of valid records, single-byte corruptions, FE FE FD / FE FD FD runs, leading FD, lone trailing FE) and "
+    "crashed-writer logs (rec FEFD rec FEFD ...) truncated at EVERY byte; each read through a scripted reader (full reads / all single bytes / "
+    "random short reads, EINTR injected) with io_block_size in {0,1,2,3,4,5,7,8,64,4096,default}. Chunker cases drive StreamChunker::pump with its "
+    "own arena (fresh / nearly full / flushed or swapped between pumps) and check the tiling model on every chunk: positions, bytes, no empty "
+    "Data, no FE FD inside or straddling consecutive Data, Eof only at the real end and sticky; Data slices held until the end must keep their "
+    "bytes. Reader cases drive StreamReader::next_record_bytes with chunk_judge(max in {MAX,0,small}, limit in {None,0,at/after a delimiter, "
+    "mid-record, beyond end}) or a harness judge skipping by start offset, and compare the returned (bytes, range) sequence with: split at "
+    "leftmost non-overlapping FE FD, reference-decode every non-empty segment, drop oversize/skipped ones, stop at the first segment starting at or "
+    "after the limit; then None twice; last_sentinel_offset at a natural end. non-trivial = every case; distinct = distinct hash of (block size, "
+    "arena mode, #data chunks, #sentinels, hold-back / trailing-FE / FE FE FD seen, EINTR seen, length class) resp. (block size, #records, "
+    "#oversize, #invalid, #judge-skipped, stopped, EINTR seen, length class).")
+
+STREAM_ASSUME = [
+    "the reader never returns a hard error (the property quantifies over short reads and interrupted calls)",
+    "the harness judge returns KeepGoing on an empty range (SkipRecord there trips an internal assertion outside the property's quantifier)",
+    "reference codec validated against the crate's literal test vectors at start-up",
+]
+
+PLANS["C08"] = {
+    "level": "exploration",
+    "technique": "tiling-model monitor over every Chunk returned by StreamChunker::pump on hostile streams, read schedules, block sizes (incl. 0 and 1) and arena states; held Data slices re-checked after arena churn",
+    "rule": STREAM_RULE, "assumptions": STREAM_ASSUME,
+    "required_features": ["stream.chunker.sentinels", "stream.chunker.fe_first_byte_of_next_chunk", "stream.chunker.trailing_FE_at_end_of_stream",
+                          "stream.chunker.FE_FE_FD", "stream.chunker.block_size_below_2", "stream.chunker.reader_interrupts",
+                          "stream.chunker.arena.NearlyFull", "stream.chunker.arena.SwapBetween"],
+    "quick": [R("stream", "dbg", mode="chunker", chunk_cases=1500000)],
+    "thorough": [R("stream", "dbg", mode="chunker", chunk_cases=20000000),
+                 R("stream", "rel", mode="chunker", chunk_cases=40000000),
+                 R("stream", "asan", mode="chunker", chunk_cases=400000)],
+}
+PLANS["C06"] = {
+    "level": "exploration",
+    "technique": "reference-model monitor (segment at FE FD, independent reference decoder, judge model) over every (record, range) returned by StreamReader on hostile streams, every truncation point of crashed-writer logs, short-read/EINTR schedules, all block sizes",
+    "rule": STREAM_RULE, "assumptions": STREAM_ASSUME,
+    "required_features": ["stream.reader.records_returned", "stream.reader.oversize_skipped", "stream.reader.invalid_segments_skipped",
+                          "stream.reader.judge_skipped", "stream.reader.stopped_by_limit", "stream.reader.block_size_below_2",
+                          "stream.reader.default_block_size", "stream.reader.log_truncation_points", "stream.reader.reader_interrupts"],
+    "quick": [R("stream", "dbg", mode="reader,logs", reader_cases=1000000, log_cases=200)],
+    "thorough": [R("stream", "dbg", mode="reader,logs", reader_cases=16000000, log_cases=4000),
+                 R("stream", "rel", mode="reader,logs", reader_cases=30000000, log_cases=4000),
+                 R("stream", "asan", mode="reader,logs", reader_cases=300000, log_cases=100)],
+}
+PLANS["C17"] = {
+    "level": "fault_enumeration",
+    "technique": "fault enumeration: every reader script over {deliver 1, deliver 2, fill, Interrupted, EOF, error(Other), error(WouldBlock)} up to a bounded length x counts x attempt limits x arena states, checked against a sequential model of the documented retry rule (call count, offered sizes, result, bytes, codec output afterwards)",
+    "level_text": "Bounded-complete enumeration of I/O fault scripts against the real read_n / encode_read / decode_read, plus random long scripts; held on everything enumerated, not a proof beyond the bound.",
+    "rule": ("cases = reader fault scripts: ALL scripts over the 7-symbol alphabet {Deliver(1), Deliver(2), Fill, Interrupted, Eof, Fail(Other), "
+             "Fail(WouldBlock)} up to length L (EOF after the script) x count in {0,1,2,3,5} x max_attempts in {1,2,3,MAX} x arena state in {fresh, "
+             "nearly full chunk, after flush} against ByteArena::read_n; all scripts up to length L' x counts x attempts against Encoder::encode_read, "
+             "Encoder::read_n+encode_anchored, Decoder::decode_read, Decoder::read_n+decode_anchored (surrounded by other input so that the codec output "
+             "afterwards is checked against the reference codec on exactly the delivered bytes); then seeded random scripts of up to 30 steps with counts "
+             "up to 70000 and sources shorter than count. Oracle: number of reader calls <= max_attempts and equal to the model's, every call offered "
+             "exactly count minus delivered-so-far bytes, result Ok(delivered bytes) / Err(kind of last error) per the documented rule, count 0 => no "
+             "call; a follow-up read does not alias or clobber the first slice; slices survive dropping the arena; arena counters return to baseline. "
+             "non-trivial = every script (each drives at least the model comparison); distinct = distinct script (sweep) or distinct outcome vector (random)."),
+    "assumptions": ["exhaustive only up to the stated script length; random beyond",
+                    "the scripted reader logs the buffer length and outcome of every call it receives"],
+    "required_features": ["readn.result.ok_full", "readn.result.ok_short", "readn.result.ok_empty_on_eof", "readn.result.err_nothing_delivered",
+                          "readn.eintr_retried", "readn.attempt_limit_reached", "readn.target.1", "readn.target.2", "readn.target.3", "readn.target.4"],
+    "quick": [R("readn", "dbg", script_len=5, wrapper_script_len=4, cases=300000)],
+    "thorough": [R("readn", "dbg", script_len=7, wrapper_script_len=6, cases=4000000),
+                 R("readn", "asan", script_len=4, wrapper_script_len=3, cases=100000),
+                 R("readn", "miri", sweep=0, cases=160, timeout=3000, miriflags="-Zmiri-disable-isolation -Zmiri-disable-stacked-borrows")],
+}
